@@ -45,7 +45,7 @@ class Check(PropertyCheck):
             if _i % 15 == 3:
                 yield Scenario(["new", f"mark customfilter {rng.randint(0, 10**6)}"], {"family": "custom_filter", "accepted": 3, "style": "custom_filter"})
                 continue
-            if _i % 15 == 13:
+            if _i % 60 == 13:
                 yield Scenario(["new", f"mark gcflex {rng.randint(0, 10**6)}"], {"family": "gcflex", "accepted": 3, "style": "gcflex"})
                 continue
             if _i % 15 == 11:
